@@ -235,6 +235,17 @@ func (i *interpreter) makeSlice(fr *frame, instr *ssa.MakeSlice, ln, cp value) v
 	tElt := instr.Type().Underlying().(*types.Slice).Elem()
 	_, sl := ln.(symv)
 	_, sc := cp.(symv)
+	if kk, isScalar := scalarKind(tElt); isScalar && width(kk) == 8 {
+		// abstract (symbolic-length) representation? replayed identically in concrete re-execution
+		if i.pm.note(sl || sc) && !sl && !sc {
+			l, c := asInt64(ln), asInt64(cp)
+			if l < 0 || c < l {
+				panic(runtimePanic{"makeslice: len out of range at " + fr.pos(instr.Pos())})
+			}
+			o := &bobj{id: i.newID(), cells: map[int]value{}, elemK: kk}
+			return &symslice{obj: o, off: 0, n: int(l), c: int(c), elem: tElt}
+		}
+	}
 	if !sl && !sc {
 		l, c := asInt64(ln), asInt64(cp)
 		if l < 0 || c < l {
@@ -300,7 +311,7 @@ func (i *interpreter) sliceOp(fr *frame, instr *ssa.Slice, x, lo, hi, max value)
 			panic(engineError{"string slice with symbolic bounds at " + fr.pos(instr.Pos())})
 		}
 	case []value:
-		if anySym {
+		if _, isByte := scalarKind(instr.X.Type().Underlying().(*types.Slice).Elem()); isByte && i.pm.note(anySym) || anySym {
 			o := &bobj{id: i.newID(), backing: xs[:cap(xs)]}
 			et := instr.X.Type().Underlying().(*types.Slice).Elem()
 			if k, ok := scalarKind(et); ok {
